@@ -14,7 +14,7 @@ Pv(p) == <<2, 3, 5, 7, 11>>[p]
 UnitAt(p) == << <<Q(3,5), Q(4,5)>>, CJ1, <<Q(5,13), Q(-12,13)>>, C1, <<Q(-4,5), Q(3,5)>> >>[p]
 QuarterAt(p) == << CJ1, C1, CNeg(CJ1), CNeg(C1), CJ1 >>[p]      \* phases of periodic sources: quarter turns (u^n stays small)
 AllKinds == <<"R","G","Z","Y","C","L","LP","LD","SC","DV","DVR","AV1","AVR1","AV2","DI","DIG","AI1","AIG1","AI2","CV","CI",
-              "PVr","PVt","PVs","PIr","PVRr","PV10","AV03","PIs","Ra","La","Ca","Rb","Lb","Cb","AVn","AVm","PVh","PIh">>
+              "PVr","PVt","PVs","PIr","PVRr","PV10","AV03","PIs","Ra","La","Ca","Rb","Lb","Cb","AVn","AVm","PVh","PIh","AVk","AIk">>
 KindNo(k) == CHOOSE i \in 1..Len(AllKinds) : AllKinds[i] = k
 
 CompOf(k, p, n1, n2) ==
@@ -61,8 +61,11 @@ CompOf(k, p, n1, n2) ==
     [] k = "PVh" -> Comp("periodic_voltage_source", id, n1, n2, [wave |-> "saw", V |-> RI(p + 1), w |-> Q(1,2), u |-> QuarterAt(p), R |-> R0])
     [] k = "PIh" -> Comp("periodic_current_source", id, n1, n2, [wave |-> "saw", I |-> RI(p), w |-> RI(2), u |-> QuarterAt(p + 1), G |-> R0])
     [] k = "PIr" -> Comp("periodic_current_source", id, n1, n2, [wave |-> "rect", I |-> RI(p), w |-> RI(2), u |-> QuarterAt(p + 1), G |-> R0])
+    \* sources at a high frequency (1000 rad/s): the resolution is absolute, not relative to the source frequency
+    [] k = "AVk" -> Comp("ac_voltage_source", id, n1, n2, [V |-> RI(p + 1), R |-> R0, w |-> RI(1000), u |-> UnitAt(p)])
+    [] k = "AIk" -> Comp("ac_current_source", id, n1, n2, [I |-> RI(p), G |-> R0, w |-> RI(1000), u |-> CJ1])
 
-Code(n1, n2, k) == (n1 * MaxN + n2) * 32 + KindNo(k)
+Code(n1, n2, k) == (n1 * MaxN + n2) * 64 + KindNo(k)
 LastCode == IF cs = <<>> THEN 0 ELSE LET c == cs[Len(cs)] IN Code(c.n1, c.n2, c.kk)
 
 Init == cs = <<>> /\ gnd \in Gnds
